@@ -1,6 +1,6 @@
 (* Props/C08.v — calibration, enumeration and boolean derivation follow XTCE; raw value kept. *)
 From Coq Require Import ZArith List Bool.
-From SPP Require Import Base.Bytes Base.Sx Base.Floats Model.Cursor Model.Values Model.Criteria Model.Doc Model.Decode Proofs.CalibP.
+From SPP Require Import Base.Bytes Base.Sx Base.Floats Model.Cursor Model.Values Model.Criteria Model.Doc Model.Decode Proofs.CalibP Proofs.SplineP.
 Import ListNotations.
 Open Scope Z_scope.
 
@@ -97,3 +97,49 @@ Theorem C08_bool_truthiness : forall t env c v c',
   parse_type t env c = Ok ({| vcls := CBool; vval := PInt (if truthy (vraw v) then 1 else 0); vraw := vraw v |}, c').
 Proof. exact bool_truthiness. Qed.
 Print Assumptions C08_bool_truthiness.
+
+(* ---- first-order splines ---- *)
+(* in range and below the largest point: the straight line through the point preceding the first point that exceeds the
+   query, and that point (which exceeds it; none before does) *)
+Theorem C08_spline1_in_range : forall order ex points pts q p0 pl,
+  sort_points points = pts -> nth_error pts 0 = Some p0 -> nth_pt pts (List.length pts - 1) = pl ->
+  forall i, order = 1 ->
+  num_le (fst p0) q = true -> num_le q (fst pl) = true -> num_eq q (fst pl) = false ->
+  first_greater pts q 0 = Some i ->
+  spline order ex points q = linear_func q (fst (nth_pt pts (i - 1))) (fst (nth_pt pts i)) (snd (nth_pt pts (i - 1))) (snd (nth_pt pts i)) /\
+  num_gt (fst (nth_pt pts i)) q = true /\ forall j, (j < i)%nat -> num_gt (fst (nth_pt pts j)) q = false.
+Proof. exact spline1_in_range. Qed.
+Print Assumptions C08_spline1_in_range.
+
+(* at the largest point: that point's calibrated value as written *)
+Theorem C08_spline1_at_max : forall order ex points pts q p0 pl,
+  sort_points points = pts -> nth_error pts 0 = Some p0 -> nth_pt pts (List.length pts - 1) = pl ->
+  order = 1 -> num_le (fst p0) q = true -> num_le q (fst pl) = true -> num_eq q (fst pl) = true ->
+  spline order ex points q = Ok (snd pl).
+Proof. exact spline1_at_max. Qed.
+Print Assumptions C08_spline1_at_max.
+
+From Coq Require Import Reals.
+From Flocq Require Import Core.Core IEEE754.BinarySingleNaN.
+(* the spline passes through its points: queried at the raw coordinate of the left point of a segment it returns a float
+   numerically equal to that point's calibrated value, whenever the segment's slope is a finite float *)
+Theorem C08_spline1_through_knot : forall ex points pts p0 pl i (x0 x1 y0 y1 : b64),
+  sort_points points = pts -> nth_error pts 0 = Some p0 -> nth_pt pts (List.length pts - 1) = pl ->
+  let q := NFloat (to_bits64 x0) in
+  num_le (fst p0) q = true -> num_le q (fst pl) = true -> num_eq q (fst pl) = false ->
+  first_greater pts q 0 = Some i ->
+  nth_pt pts (i - 1) = (NFloat (to_bits64 x0), NFloat (to_bits64 y0)) -> nth_pt pts i = (NFloat (to_bits64 x1), NFloat (to_bits64 y1)) ->
+  is_finite x0 = true -> is_finite y0 = true ->
+  f_is_zero (fsub (to_bits64 x1) (to_bits64 x0)) = false ->
+  is_finite (Bdiv mode_NE (Bminus mode_NE y1 y0) (Bminus mode_NE x1 x0)) = true ->
+  exists r, spline 1 ex points q = Ok (NFloat (to_bits64 r)) /\ B2R r = B2R y0 /\ is_finite r = true.
+Proof. exact spline1_through_knot. Qed.
+Print Assumptions C08_spline1_through_knot.
+
+(* integer coordinates: the same, the value being float(y0) *)
+Theorem C08_linear_at_left_knot_int : forall (x0 x1 y0 y1 : Z) (fy0 : Z), x1 <> x0 -> of_Z y0 = Ok fy0 ->
+  (exists e, linear_func (NInt x0) (NInt x0) (NInt x1) (NInt y0) (NInt y1) = Err e) \/
+  (is_finite (Bdiv mode_NE (ofZ64 (y1 - y0)) (ofZ64 (x1 - x0))) = true ->
+   exists r, linear_func (NInt x0) (NInt x0) (NInt x1) (NInt y0) (NInt y1) = Ok (NFloat (to_bits64 r)) /\ B2R r = B2R (ofZ64 y0) /\ is_finite r = true).
+Proof. exact linear_at_left_knot_int. Qed.
+Print Assumptions C08_linear_at_left_knot_int.
